@@ -11,11 +11,8 @@ const L: usize = 6;
 #[cfg(vp_thorough)]
 const L: usize = 8;
 
-#[kani::proof]
-#[kani::unwind(11)]
-fn c08_classify_vs_model() {
+fn classify_body(n: usize) {
     let raw: [u8; L] = kani::any();
-    let n: usize = kani::any();
     kani::assume(n <= L);
     kani::assume(wf_utf8(&raw, n));
     let is_empty: bool = kani::any();
@@ -52,21 +49,42 @@ fn c08_classify_vs_model() {
         k += 1;
     }
     assert!(it.next().is_none());
-    kani::cover!(want.n == 4 && want.kind[0] == SHORT && want.kind[2] == SHORT && want.kind[3] == VALUE, "cluster then value");
-    kani::cover!(want.n >= 3 && want.kind[0] == DD && want.kind[1] == VALUE && want.len[1] == 2 && raw[3] == b'-', "option-looking value after --");
-    kani::cover!(want.n == 2 && want.kind[0] == SHORT && want.scalar[0] > 0xFFFF, "4-byte short option");
-    kani::cover!(want.n == 1 && want.kind[0] == VALUE && want.len[0] == 1 && raw[0] == b'-', "lone dash is a value");
-    kani::cover!(want.n == 3 && want.len[0] == 0 && want.len[1] == 0 && want.kind[2] == LONG, "empty tokens are values");
-    kani::cover!(is_empty);
+    kani::cover!(n != 6 || (want.n == 4 && want.kind[0] == SHORT && want.kind[2] == SHORT && want.kind[3] == VALUE), "cluster then value");
+    kani::cover!(n != 6 || (want.n >= 3 && want.kind[0] == DD && want.kind[1] == VALUE && want.len[1] == 2 && raw[3] == b'-'), "option-looking value after --");
+    kani::cover!(n != 6 || (want.n == 2 && want.kind[0] == SHORT && want.scalar[0] > 0xFFFF), "4-byte short option");
+    kani::cover!(n != 1 || (want.n == 1 && want.kind[0] == VALUE && want.len[0] == 1 && raw[0] == b'-'), "lone dash is a value");
+    kani::cover!(n != 5 || (want.n == 3 && want.len[0] == 0 && want.len[1] == 0 && want.kind[2] == LONG), "empty tokens are values");
+    kani::cover!(n > 0 || is_empty);
+    kani::cover!(n < 3 || want.kind[0] == LONG, "long option");
 }
+
+macro_rules! classify_len {
+    ($name:ident, $n:expr) => {
+        #[kani::proof]
+        #[kani::unwind(11)]
+        fn $name() {
+            classify_body($n);
+        }
+    };
+}
+classify_len!(c08_classify_n0, 0);
+classify_len!(c08_classify_n1, 1);
+classify_len!(c08_classify_n2, 2);
+classify_len!(c08_classify_n3, 3);
+classify_len!(c08_classify_n4, 4);
+classify_len!(c08_classify_n5, 5);
+classify_len!(c08_classify_n6, 6);
+#[cfg(vp_thorough)]
+classify_len!(c08_classify_n7, 7);
+#[cfg(vp_thorough)]
+classify_len!(c08_classify_n8, 8);
 
 /// Reachability twin.
 #[kani::proof]
 #[kani::unwind(11)]
 fn c08_classify_twin() {
     let raw: [u8; L] = kani::any();
-    let n: usize = kani::any();
-    kani::assume(n <= L);
+    let n: usize = 3;
     kani::assume(wf_utf8(&raw, n));
     let text = unsafe { core::str::from_utf8_unchecked(&raw[..n]) };
     let list = ArgList::new(Tokens::from_raw(text, false));
